@@ -198,13 +198,13 @@ Definition authorize_core (cfg : config) (s : state) (cl : client) (a : authz) :
    client_id parameter; scope and audience are validated against its registration (the same checks the
    handler repeats) *)
 (* AuthorizeImplicitGrantTypeHandler (response_type=token): an access token minted by the authorization endpoint *)
-Definition implicit_session (cfg : config) (s : state) (a : authz) (exp_code : option Z) : sess :=
-  {| s_subject := az_subject a; s_exp_code := exp_code; s_exp_at := Some (round_s (now s + cf_life_at cfg));
+Definition implicit_session (cfg : config) (s : state) (cl : client) (a : authz) (exp_code : option Z) : sess :=
+  {| s_subject := az_subject a; s_exp_code := exp_code; s_exp_at := Some (round_s (now s + cf_life_at (eff_cfg cfg cl LImplicit)));
      s_exp_rt := None; s_exp_dev := None |}.
 
 Definition store_implicit (cfg : config) (s : state) (cl : client) (a : authz) (rid : nat) (exp_code : option Z) : state * nat :=
   let (ka, s1) := mint s KImplicit rid in
-  let se := implicit_session cfg s a exp_code in
+  let se := implicit_session cfg s cl a exp_code in
   let r := {| r_id := rid; r_client := az_client a; r_cl := cl; r_rscopes := az_scopes a; r_gscopes := az_granted a;
               r_raud := az_aud a; r_gaud := az_gaud a; r_sess := se; r_redirect := "";
               r_challenge := ""; r_method := ""; r_at := now s |} in
@@ -214,7 +214,7 @@ Definition store_implicit (cfg : config) (s : state) (cl : client) (a : authz) (
 Definition issue_implicit (cfg : config) (s : state) (cl : client) (a : authz) (rid : nat) (exp_code : option Z) : state * Z :=
   let (s2, ka) := store_implicit cfg s cl a rid exp_code in
   (log_add s2 [{| i_kind := KImplicit; i_key := ka; i_rid := rid; i_endpoint_token := false |}],
-   expires_in (implicit_session cfg s a exp_code) cfg (now s)).
+   expires_in (implicit_session cfg s cl a exp_code) cfg (now s)).
 
 Definition authorize_implicit (cfg : config) (s : state) (cl : client) (a : authz) : state * obs :=
   if negb (scopes_ok cfg cl (az_scopes a)) then fail s "invalid_scope"
@@ -251,7 +251,7 @@ Definition authorize_hybrid (cfg : config) (s : state) (cl : client) (a : authz)
             if String.eqb (az_challenge a) "" && String.eqb (az_method a) "" then s4
             else set_store s4 (create_pkce (st s4) k
                    {| r_id := rid; r_client := az_client a; r_cl := cl; r_rscopes := az_scopes a; r_gscopes := az_granted a;
-                      r_raud := az_aud a; r_gaud := az_gaud a; r_sess := implicit_session cfg s a exp_code; r_redirect := "";
+                      r_raud := az_aud a; r_gaud := az_gaud a; r_sess := implicit_session cfg s cl a exp_code; r_redirect := "";
                       r_challenge := az_challenge a; r_method := az_method a; r_at := now s |}) in
           (log_add s5 [{| i_kind := KCode; i_key := k; i_rid := rid; i_endpoint_token := false |}],
            ok_obs [KImplicit; KCode] ein [])
@@ -437,7 +437,7 @@ Definition redeem (cfg : config) (s : state) (auth : option nat) (code : pres) (
           else if negb (Nat.eqb (r_client r) c) then fail s "invalid_grant"
           else if negb (String.eqb (r_redirect r) "") && negb (String.eqb (r_redirect r) redirect) then fail s "invalid_grant"
           else
-            let se := set_token_expiries cfg (now s) (r_sess r) in
+            let se := set_token_expiries (eff_cfg cfg cl LAuthCode) (now s) (r_sess r) in
             (* pkce.Handler.HandleTokenEndpointRequest *)
             match pkce_token cfg s cl (Some k) verifier verifier_s256 with
             | (s1, Some e) => fail s1 e
@@ -484,7 +484,7 @@ Definition refresh_flow (cfg : config) (s : state) (auth : option nat) (tok : pr
           else if negb (scopes_ok cfg cl (r_gscopes r)) then fail s "invalid_scope"
           else if negb (aud_ok cfg (cl_aud cl) (r_gaud r)) then fail s "invalid_request"
           else
-            let se := set_token_expiries cfg (now s) (r_sess r) in
+            let se := set_token_expiries (eff_cfg cfg cl LRefresh) (now s) (r_sess r) in
             let stored := {| r_id := r_id r; r_client := c; r_cl := cl; r_rscopes := r_rscopes r; r_gscopes := r_gscopes r;
                              r_raud := r_raud r; r_gaud := r_gaud r; r_sess := se; r_redirect := "";
                              r_challenge := ""; r_method := ""; r_at := now s |} in
@@ -587,7 +587,7 @@ Definition password_flow (cfg : config) (s : state) (auth : option nat) (creds_o
       else if negb (aud_ok cfg (cl_aud cl) aud) then fail s "invalid_request"
       else if negb creds_ok then fail s "invalid_grant"
       else
-        let se := fresh_session cfg s "uuid" true true in
+        let se := fresh_session (eff_cfg cfg cl LPassword) s "uuid" true true in
         let mk := fun rid => {| r_id := rid; r_client := c; r_cl := cl; r_rscopes := scopes; r_gscopes := granted;
                          r_raud := aud; r_gaud := gaud; r_sess := se; r_redirect := "";
                          r_challenge := ""; r_method := ""; r_at := now s |} in
@@ -610,7 +610,7 @@ Definition client_credentials_flow (cfg : config) (s : state) (auth : option nat
       else if cl_public cl then fail s "invalid_grant"
       else if negb (args_has (cl_grants cl) ["client_credentials"]) then fail s "unauthorized_client"
       else
-        let se := fresh_session cfg s "" false false in
+        let se := fresh_session (eff_cfg cfg cl LClientCreds) s "" false false in
         let mk := fun rid => {| r_id := rid; r_client := c; r_cl := cl; r_rscopes := scopes; r_gscopes := granted;
                          r_raud := aud; r_gaud := gaud; r_sess := se; r_redirect := "";
                          r_challenge := ""; r_method := ""; r_at := now s |} in
